@@ -400,7 +400,10 @@ class Point(HyperbolicObject, projective.Point):
         products = utils.apply_bilinear(self_hyp, other_hyp,
                                         self.minkowski)
 
-        return np.arccosh(np.abs(products))
+        # |<x, y>| is at least 1 for points on the unit hyperboloid, but
+        # it can round to slightly less than 1 when the points are
+        # equal (or very close), and arccosh would then give nan
+        return np.arccosh(np.maximum(np.abs(products), 1))
 
     def origin_to(self, force_oriented=True):
         """Get an isometry taking an "origin" point to this point
